@@ -152,6 +152,11 @@ func genReq(r *mon.Rand, i int, rawOnly bool) *areq {
 		a.Path = safePaths[r.Intn(len(safePaths))]
 		a.SafeTarget = true
 	}
+	if r.Chance(12) {
+		// a URL without a path (http://peer?x=1): the request target still has one, "/"
+		a.Path = ""
+		a.SafeTarget = true
+	}
 	a.Query = queries[r.Intn(len(queries))]
 	if rawOnly {
 		// with path normalisation disabled the caller is responsible for escaping: only
@@ -642,6 +647,9 @@ func compareReq(a *areq, m *wire.Message, hr *http.Request, hbody []byte, v *rig
 		return fmt.Sprintf("target: strict %q net/http %q hertz %q", m.Target, hr.RequestURI, v.URI)
 	}
 	want := a.Path
+	if want == "" {
+		want = "/"
+	}
 	if a.Query != "" {
 		want += "?" + a.Query
 	}
